@@ -421,6 +421,42 @@ pub fn run() -> i32 {
     r.boxes.push(json!({"box": "comma lists in alias lines vs their members one per line (6 deromaniser, 4 romaniser lists)", "comparisons": tl.evals, "equal_ok": tl.rewritten, "equal_err": tl.same}));
     r.guard(tl.rewritten > 100, "alias lists: more than 100 equal Ok outcomes");
     td.merge(tl);
+    // `+` romanisers over SEVERAL segments, one of them a long vowel matched by a length condition: the string is added to the normal letters of
+    // all matched segments (a segment matched as a whole long segment is written once, without its length mark - the manual's macron example)
+    {
+        // element = (text, matches consonant c?, vowel length condition: 0 none (consonant), 1 [+long], 2 [-long], 3 [+overlong])
+        let cons = |t: &'static str| (t, 0u8);
+        let pats: Vec<Vec<(&str, u8)>> = vec![
+            vec![cons("t"), ("a:[+long]", 1)], vec![cons("C"), ("V:[+long]", 1)], vec![cons("C"), ("a:[-long]", 2)], vec![("a:[+long]", 1), cons("p")], vec![("V:[+overlong]", 3), cons("C")],
+            vec![cons("t"), ("a:[+long]", 1), cons("p")], vec![cons("m"), ("V:[-long]", 2), cons("p")], vec![cons("C"), ("a:[+overlong]", 3)],
+        ];
+        let mut tm = Acc::default();
+        for pat in &pats { for onset in ["t", "m", ""] { for len in 1..=3usize { for coda in ["p", "t", ""] { for stress in ["", "ˈ"] { for extra in ["", ".i"] {
+            tm.evals += 1;
+            let line = format!("{} > +h", pat.iter().map(|e| e.0).collect::<Vec<_>>().join(" "));
+            let vowel = format!("a{}", "ː".repeat(len - 1));
+            let word = format!("{}{}{}{}{}", stress, onset, vowel, coda, extra);
+            // the segments of the first syllable as (letter, copies)
+            let mut segs: Vec<(&str, usize)> = vec![]; if !onset.is_empty() { segs.push((onset, 1)); } segs.push(("a", len)); if !coda.is_empty() { segs.push((coda, 1)); }
+            let el_ok = |e: &(&str, u8), sg: &(&str, usize)| -> bool { match e.1 { 0 => sg.0 != "a" && (e.0 == "C" || e.0 == sg.0), 1 => sg.0 == "a" && sg.1 >= 2, 2 => sg.0 == "a" && sg.1 == 1, _ => sg.0 == "a" && sg.1 == 3 } };
+            let mut out = String::from(stress); let mut k = 0;
+            while k < segs.len() {
+                if k + pat.len() <= segs.len() && pat.iter().zip(&segs[k..]).all(|(e, sg)| el_ok(e, sg)) {
+                    for (e, sg) in pat.iter().zip(&segs[k..]) { out += sg.0; if e.1 == 0 || e.1 == 2 { out += &"ː".repeat(sg.1 - 1); } }
+                    out += "h"; k += pat.len();
+                } else { out += segs[k].0; out += &"ː".repeat(segs[k].1 - 1); k += 1; }
+            }
+            out += extra;
+            let none: Vec<String> = vec![];
+            match guarded(budget_for(10, 40) * 2, || asca::run(&[], &[word.clone()], &none, &[line.clone()]).map_err(|e| format!("{:?}", e))) {
+                Out::Ok(Ok(v)) if v == vec![out.clone()] => { if out != word { tm.rewritten += 1; } else { tm.same += 1; } }
+                o => tm.viols.push(Viol { key: format!("plus-multi|{}|{}", line, word), desc: format!("romaniser `{}` on `{}`: expected `{}` (the letters of the matched segments, then the string), got {}", line, word, out, match &o { Out::Ok(v) => format!("{:?}", v), c => c.crash_desc().unwrap_or_default() }), case: json!({"kind": "amer"}) }),
+            }
+        } } } } } }
+        r.boxes.push(json!({"box": "`+` romanisers over several segments with a length condition on one of them", "alias_lines": pats.len(), "comparisons": tm.evals, "rewritten": tm.rewritten, "unchanged": tm.same}));
+        r.guard(tm.rewritten > 100 && tm.same > 100, "multi-segment + romanisers: rewritten and unchanged words both occur");
+        td.merge(tm);
+    }
     // custom mappings are applied before the inbuilt aliases (doc.md): a deromaniser whose string is an inbuilt alias character (ASCII shorthand letters,
     // americanist characters) must win over the inbuilt reading, and typing that character must then behave exactly as typing the deromaniser's target
     let inbuilt = ["ł", "ñ", "¢", "ƛ", "λ", "S", "Z", "C", "G", "N", "B", "R", "X", "H", "A", "E", "I", "O", "U", "Y", "g", "?", "!", "φ", "ǝ", "ã", "ẽ", "ĩ", "õ", "ũ", "ỹ", "ɚ", "ɝ", "ꭤ", "ℇ", "ℎ", "ℏ"];
